@@ -80,10 +80,30 @@ func flattenNameCases() []*Case {
 	midF.Msg = mid
 	leaf := F("leaf", 1, KString, Single)
 	root := &Message{Name: "T", Fields: []*Field{leaf, midF}, Full: true}
-	return []*Case{{
+	out := []*Case{{
 		ID: "flatten-field-named-like-outer-member", Coord: "kind=string|label=single|context=flatten-field-named-like-outer-member",
 		Schema: &Schema{Messages: []*Message{root}, Root: root}, Under: leaf, Holder: root,
 	}}
+	// a flattened field (which contributes no member of its own) named like one of its own members,
+	// and like a member of another flattened field
+	{
+		addr := &Message{Name: "Address", Fields: []*Field{F("address", 1, KString, Single), F("city", 2, KString, Single)}, Full: true}
+		af := F("address", 1, KFlatten, Single)
+		af.Msg = addr
+		r1 := &Message{Name: "T", Fields: []*Field{af, F("note", 2, KString, Single)}, Full: true}
+		out = append(out, &Case{ID: "flatten-field-named-like-own-member", Coord: "kind=flatten|label=single|context=flatten-field-named-like-own-member",
+			Schema: &Schema{Messages: []*Message{r1}, Root: r1}, Under: af, Holder: r1})
+		geo := &Message{Name: "Geo", Fields: []*Field{F("lat", 1, KDouble, Single), F("place", 2, KString, Single)}, Full: true}
+		place := &Message{Name: "Place", Fields: []*Field{F("zip", 1, KString, Single)}, Full: true}
+		gf := F("geo", 1, KFlatten, Single)
+		gf.Msg = geo
+		pf := F("place", 2, KFlatten, Single) // named like Geo.place
+		pf.Msg = place
+		r2 := &Message{Name: "T", Fields: []*Field{gf, pf}, Full: true}
+		out = append(out, &Case{ID: "flatten-field-named-like-member-of-another", Coord: "kind=flatten|label=single|context=flatten-field-named-like-member-of-another",
+			Schema: &Schema{Messages: []*Message{r2}, Root: r2}, Under: gf, Holder: r2})
+	}
+	return out
 }
 
 // SingleFieldCases: every (kind x label x context) single-field message.
